@@ -35,6 +35,8 @@ CHECKS = {
          "Connections with a history of USE statements (none, system in several spellings, user and quoted keyspaces) send tokenised statements sweeping keyspace qualifiers, table spellings (system tables, case/quote variants, look-alikes), selector lists and statement kinds, as QUERY and as PREPARE (+EXECUTE, with the v5 keyspace field); an independent resolution model (CQL identifier equality, qualifier before current keyspace) decides whether the proxy must answer itself, which must coincide with the token never/always reaching a fake backend; backends never see a client-originated read of system.local/peers and no client ever sees a backend's sentinel rows.", "§7 C09"),
  "C10": ("deterministic simulation with several real proxy instances in one world sharing a generated peer list; decoded-rows oracle against a model computed from the configuration, and cross-proxy agreement",
          "Up to four real proxies are booted in one simulated world from one generated peer list (0-16 IPv4/IPv6 entries, with/without self, data centers and tokens, DSE or OSS backend); system.local and system.peers are read through the wire with * and generated selector lists (subsets, order, aliases, count(*), count(col), now()), decoded with the reference data codecs under the advertised types and compared with the configured/backend-derived facts; what each proxy says about itself must equal what every other proxy says about it, host ids are version-3 UUIDs, tokens are distinct and follow address order from the minimum token.", "§7 C10"),
+ "C17": ("deterministic simulation with corruption faults: seeded mutation of client byte streams and malformed/unsolicited backend replies around a canary client, under every maximum version; per-goroutine panic capture, deadlock/livelock detectors, canary-correctness oracle",
+         "Hostile clients send seeded mutations of valid frames (bit flips, truncation, declared lengths up to 16 MiB, wrong opcode/direction/version bytes, hostile strings in query text, PREPARE keyspace, STARTUP options and batch children) and hostile backend nodes answer with wrong streams, wrong opcodes, short or unknown bodies, duplicate replies, garbage, UNPREPARED for cached ids (also to heartbeats) and garbage events; no SUT goroutine may panic (captured per task, as it would kill the real process), nothing may deadlock or spin, and a well-behaved canary connection keeps getting exactly one correct answer per request from the healthy host.", "§7 C17"),
 }
 
 NOT_APPLICABLE = {
